@@ -81,6 +81,12 @@ def gen_jb(ch, spec):
         cfg["net"] = random_profile(ch, "cfg", intensity=ch.choice("cfg", [0.05, 0.1, 0.3, 0.6])).to_json()
     nframes = ch.choice("wl", [5, 20, 60, 150, 400])
     ops = []
+    # in a share of runs one frame carries the RTP timestamp 0 exactly (constant step, origin chosen to land on it)
+    ts_zero = ch.chance("cfg", 0.2)
+    if ts_zero:
+        step = ch.choice("cfg", [960, 3000, 3000, 90000])
+        cfg["ts_zero_step"] = step
+        cfg["ts0"] = (-(ch.randint("cfg", 0, max(0, nframes - 1), 0)) * step) & 0xFFFFFFFF
     for i in range(nframes):
         op = {"n": ch.randint("wl", cfg.get("minframe", 1), cfg["maxframe"], cfg.get("minframe", 1))}
         if cfg["mode"] == "faulty":
@@ -92,6 +98,9 @@ def gen_jb(ch, spec):
             if 90 <= r < 96:
                 op["gap"] = ch.choice("wl", [0.05, 0.5, 3.0])
         op["ts_step"] = ch.choice("wl", [1, 960, 3000, 3000, 90000, 0x7FFFFFFF])
+        if ts_zero:
+            op["ts_step"] = cfg["ts_zero_step"]
+            op.pop("same_ts", None)
         ops.append(op)
     return cfg, ops
 
@@ -185,6 +194,8 @@ class JbWorld(BaseWorld):
 
     def _arrival(self, u):
         seq, ts, data = self.pkts[u]
+        if ts == 0:
+            self.probes["timestamp_zero_packets"] += 1
         pkt = aiortc.rtp.RtpPacket(payload_type=96, sequence_number=seq, timestamp=ts)
         pkt._data = data
         pkt._u = u
